@@ -69,9 +69,9 @@ def run(chk):
     scratch = vf.scratch_dir(chk.pid)
     chk.rule = RULE
     chk.sanitizer = {"flavour": "asan", "reports": 0}
-    n_fm = vf.tier_n(chk.tier, 96, 1440)
-    n_imc = vf.tier_n(chk.tier, 320, 5120)
-    n_qr = vf.tier_n(chk.tier, 2000, 50000)
+    n_fm = vf.tier_n(chk.tier, 224, 3360)
+    n_imc = vf.tier_n(chk.tier, 480, 6400)
+    n_qr = vf.tier_n(chk.tier, 4000, 60000)
     try:
         # (c) library harness
         shards = 16
